@@ -7,7 +7,8 @@ exactly one push under its own id, every other subscription none (reference regi
 live matching vs stored matching on both backends: for a set of filters, the events pushed live equal the events
 the same filter returns when queried afterwards (ephemeral kinds and boundary timestamps excepted); connection
 identities are made to collide (all connections share an address and the random suffix is pinned) because the
-registry is keyed by them.
+registry is keyed by them; large fan-outs (hundreds of open subscriptions on many connections) during which other
+connections' REQ / CLOSE / disconnect messages arrive at swept scheduling points of the EVENT's processing.
 """
 import copy
 import json
@@ -306,6 +307,327 @@ def closed_means_closed(report, backend, rng, keys, tag):
         relay.close()
 
 
+# ------------------------------------------------------------------------------------------------------------
+# Large fan-outs with registry mutations by other connections arriving *while the event is being processed*.
+#
+# The small sessions above have a handful of open subscriptions, and their bursts are handed over before the loop runs: a
+# handler drains its inbox in one loop turn, so every queued REQ / CLOSE / disconnect is over long before the publisher's
+# EVENT (signature check, storage round trip) reaches the fan-out.  Here the arrival time of every other connection's
+# message is an input of its own: the message is held back inside the connection's (fake) socket and released at a
+# scheduling point of the EVENT's processing that the harness can see without looking into the relay —
+#   turns  >= n : n loop turns after the EVENT was handed to the relay,
+#   tasks  >= n : the publisher's handler has started n tasks since then (loop task factory; whose tasks they are is known
+#                 from the harness's own per-connection context variable, not from the coroutine's name),
+#   pushes >= n : n live items of this event have been put on connections' queues (the harness's queue class),
+# with n swept geometrically from 1 up to the number of open subscriptions.  The socket polls its condition once per loop
+# turn and then returns the message to the handler in that very turn, so a message lands in *every* window in which the
+# EVENT's processing is suspended after the n-th scheduling point: whatever the round does between two suspension points
+# (one task per subscription, batches of any size, chunks per connection ...), some n falls into it.
+def _sweep(upto):
+    out, n = [], 1
+    while n <= upto:
+        out.append(n)
+        n = max(n + 1, (n * 3) // 2)
+    return out
+
+
+class _Arrival:
+    def __init__(self, clock, kind, n):
+        self.clock, self.kind, self.n = clock, kind, n
+        self.at = None              # what the clock showed when the message reached the handler
+
+    def due(self):
+        return self.clock["forced"] or (self.clock["armed"] and self.clock[self.kind] >= self.n)
+
+    def describe(self):
+        return "%s>=%d" % (self.kind, self.n)
+
+
+def _gated_inbox():
+    from lib import proto
+
+    class GatedInbox(proto._real_queue):
+        """the client side of a socket whose next message is still on its way: ("AT", arrival, message) is handed to the
+        relay's handler in the first loop turn in which arrival.due()"""
+
+        async def get(self):
+            item = await super().get()
+            if isinstance(item, tuple) and len(item) == 3 and item[0] == "AT":
+                arrival, item = item[1], item[2]
+                while not arrival.due():
+                    await proto._real_sleep(0)
+                c = arrival.clock
+                arrival.at = {"turns": c["turns"], "tasks": c["tasks"], "pushes": c["pushes"], "forced": c["forced"],
+                              "ok_seen": c["ok_seen"]}
+            return item
+
+    return GatedInbox()
+
+
+def large_fanout_burst(report, backend, rng, keys, tag, n_conns, per_conn):
+    """many connections with many subscriptions each (up to the per-connection limit), hundreds of open subscriptions in
+    total; one EVENT by a publisher; new connections' first REQs, CLOSEs, REQs under new ids, replacements and disconnects of
+    the *other* connections arrive at swept points of its processing.  Oracle (reference registry + NIP-01 reference matcher):
+    the publisher gets OK true; every subscription that was open when the EVENT was handed over and that no message of the
+    burst names gets the event exactly once under its own id if its filters match and not at all otherwise; a subscription
+    opened in the burst with filters that do not match gets nothing; the event is then returned by a stored query; and a second
+    event, published after everything has settled, reaches exactly the subscriptions of the reference registry as it is after
+    the burst.  Subscriptions named by a message of the burst (closed, replaced, their connection gone) are owed nothing for
+    the first event either way: their fate depends on which side of the acceptance the message fell."""
+    import asyncio
+    from lib import proto
+    from nostr_relay.storage.base import NostrQuery
+
+    limit = 32                       # the per-connection limit of the default configuration
+    relay = Relay(backend, subscription_limit=limit)
+    loop = relay.loop
+    clock = {"armed": False, "forced": False, "turns": 0, "tasks": 0, "pushes": 0, "ok_seen": False}
+    orig_put = proto._RecQueue.put
+    pks = [k.public_key.hex() for k in keys]
+
+    def connect(addr):
+        c = Conn(relay, remote_addr=addr, start=False)
+        c.inbox = _gated_inbox()
+        c.task = loop.create_task(c._main())
+        return c
+
+    def settle_fully(max_rounds=40):
+        for _ in range(max_rounds):
+            relay.settle()
+            if relay.quiescent():
+                return True
+        return False
+
+    def validate(fl):
+        return [NostrQuery.model_validate(copy.deepcopy(f)) for f in fl]
+
+    def pushes_of(c, start, evid):
+        return Counter(f[1] for f in c.frames(start) if isinstance(f, list) and f and f[0] == "EVENT" and isinstance(f[2], dict)
+                       and f[2].get("id") == evid)
+
+    try:
+        # ---- the standing registry -----------------------------------------------------------------------------------
+        ev1 = relay.signed_event(keys[0], kind=1, content="burst %s %s" % (backend, tag), tags=[["t", "x"]], created_at=T0 + 200)
+        ev2 = relay.signed_event(keys[1], kind=1, content="after %s %s" % (backend, tag), tags=[["t", "y"]], created_at=T0 + 210)
+        pool = [{"kinds": [1]}, {"kinds": [1, 7]}, {"authors": [pks[0]]}, {"authors": [pks[0], pks[1]]}, {"#t": ["x"]}, {"#t": ["x", "y"]},
+                {"kinds": [7]}, {"authors": [pks[2]]}, {"#t": ["z"]}, {"kinds": [1], "since": T0 + 205}]
+        subscribers = [connect("10.2.%d.%d" % (i // 200, i % 200)) for i in range(n_conns)]
+        publisher = connect("10.3.0.1")
+        registry = {}                # (conn no, sub id) -> raw filters   (reference registry)
+        setup = []
+        for c in subscribers:
+            for j in range(per_conn[c.no]):
+                r = rng.random()
+                if r < 0.55:
+                    fl = [{"kinds": [1]}]
+                elif r < 0.9:
+                    fl = [rng.choice(pool)]
+                else:
+                    fl = [rng.choice(pool), rng.choice(pool)]
+                sid = "s%d" % j
+                registry[(c.no, sid)] = fl
+                setup.append([c.no, sid, fl])
+                c.send(["REQ", sid] + fl, settle=False)
+        # lurkers: connections with one subscription each, which will leave during the burst
+        n_lurkers = rng.randint(3, 6)
+        lurkers = [connect("10.4.0.%d" % i) for i in range(n_lurkers)]
+        for c in lurkers:
+            fl = [rng.choice(pool)]
+            registry[(c.no, "lurk")] = fl
+            setup.append([c.no, "lurk", fl])
+            c.send(["REQ", "lurk"] + fl, settle=False)
+        n_open = len(registry)
+        thresholds = _sweep(n_open)
+        # late-comers: connected, but not yet in the registry (their first REQ is on its way)
+        late = [connect("10.5.%d.%d" % (i // 200, i % 200)) for i in range(len(thresholds) + 4)]
+        if not settle_fully():
+            report.count("burst_setup_not_quiescent")
+        # ---- the burst: who sends what, and when it arrives --------------------------------------------------------------
+        def arrival(kind=None, n=None):
+            kind = kind or rng.choice(["tasks", "tasks", "pushes", "turns"])
+            return _Arrival(clock, kind, n if n is not None else rng.choice(thresholds))
+
+        mutations, touched, opened = [], set(), {}
+        final = dict(registry)
+
+        def queue(c, what, msg, arr, key=None):
+            mutations.append({"c": c.no, "what": what, "msg": None if msg is proto.DISCONNECT else msg, "arrives": arr.describe(), "_arr": arr})
+            c.inbox.put_nowait(("AT", arr, msg if msg is proto.DISCONNECT else json.dumps(msg)))
+
+        quiet = {"kinds": [7], "#t": ["never"]}              # matches neither event
+        for i, c in enumerate(late):                          # a new connection's first REQ: one per threshold, then a few random
+            arr = arrival("tasks", thresholds[i]) if i < len(thresholds) else arrival()
+            queue(c, "first REQ of a new connection", ["REQ", "late", quiet], arr)
+            opened[(c.no, "late")] = [quiet]
+        for c in lurkers:                                     # a connection leaves
+            queue(c, "disconnect", proto.DISCONNECT, arrival())
+            touched.add((c.no, "lurk"))
+            final.pop((c.no, "lurk"))
+        leaver = rng.choice(subscribers) if rng.random() < 0.5 and len(subscribers) > 4 else None
+        for c in subscribers:
+            mine = sorted(k[1] for k in registry if k[0] == c.no)
+            if c is leaver:                                   # a connection with many subscriptions leaves
+                queue(c, "disconnect", proto.DISCONNECT, arrival())
+                for s in mine:
+                    touched.add((c.no, s))
+                    final.pop((c.no, s))
+                continue
+            rng.shuffle(mine)
+            for k in range(rng.randint(1, 3)):                # a few messages per connection, each with its own arrival time
+                r = rng.random()
+                if r < 0.4 and mine:
+                    s = mine.pop()
+                    queue(c, "CLOSE", ["CLOSE", s], arrival())
+                    touched.add((c.no, s))
+                    final.pop((c.no, s))
+                elif r < 0.8 and sum(1 for q in final if q[0] == c.no) < limit:
+                    s = "new%d" % k
+                    queue(c, "REQ under a new id", ["REQ", s, quiet], arrival())
+                    opened[(c.no, s)] = [quiet]
+                    final[(c.no, s)] = [quiet]
+                elif mine:
+                    s = mine.pop()
+                    fl = [rng.choice(pool)]
+                    queue(c, "REQ replacing an open subscription", ["REQ", s] + fl, arrival())
+                    touched.add((c.no, s))
+                    final[(c.no, s)] = fl
+        for k, fl in opened.items():
+            final[k] = fl
+        payload = {"backend": backend, "case": "large-fanout-burst", "limit": limit, "open_subscriptions": n_open,
+                   "connections": len(subscribers) + len(lurkers), "subscriptions": setup, "event": ev1, "second_event": ev2,
+                   "burst": [{k: v for k, v in m.items() if k != "_arr"} for m in mutations]}
+        marks = {c.no: len(c.out) for c in relay.conns}
+
+        # ---- run it --------------------------------------------------------------------------------------------------
+        async def put(q, item):
+            if clock["armed"] and isinstance(item, tuple) and len(item) == 2 and getattr(item[1], "id", None) == ev1["id"]:
+                clock["pushes"] += 1
+            return await orig_put(q, item)
+
+        def factory(lp, coro, **kw):
+            if clock["armed"] and proto._current_conn.get() is publisher:
+                clock["tasks"] += 1
+            return asyncio.Task(coro, loop=lp, **kw)
+
+        async def drive():
+            clock["armed"] = True
+            publisher.send(["EVENT", ev1], settle=False)
+            deadline, grace = loop.time() + 15.0, 0
+            try:
+                while loop.time() < deadline and grace < 30:
+                    await proto._real_sleep(0)
+                    clock["turns"] += 1
+                    if len(publisher.out) > marks[publisher.no]:
+                        clock["ok_seen"] = True
+                        grace += 1
+            finally:
+                clock["forced"] = True           # whatever has not arrived yet arrives now
+            for _ in range(5):
+                await proto._real_sleep(0)
+
+        proto._RecQueue.put = put
+        loop.set_task_factory(factory)
+        try:
+            relay.run(drive())
+        finally:
+            clock["forced"] = True
+            loop.set_task_factory(None)
+            proto._RecQueue.put = orig_put
+        settled = settle_fully()
+        clock["armed"] = False
+        for m in mutations:
+            m["arrived_at"] = m.pop("_arr").at
+        payload["burst"] = mutations
+        payload["clock_at_end"] = {k: clock[k] for k in ("turns", "tasks", "pushes")}
+        in_flight = sum(1 for m in mutations if m["arrived_at"] and not m["arrived_at"]["forced"] and not m["arrived_at"]["ok_seen"])
+        report.count("burst_messages", len(mutations))
+        report.count("burst_messages_arrived_before_ok", in_flight)
+        report.count("burst_open_subscriptions", n_open)
+        if not settled:
+            report.count("burst_not_quiescent")
+
+        # ---- the first event -----------------------------------------------------------------------------------------
+        oks = [f for f in publisher.frames(marks[publisher.no]) if isinstance(f, list) and f and f[0] == "OK"]
+        if len(oks) != 1 or oks[0][1:3] != [ev1["id"], True]:
+            report.property_failure("%s: a valid new event published while %d subscriptions were open and other connections subscribed, "
+                                    "closed and left was answered %s instead of one OK true"
+                                    % (backend, n_open, json.dumps(oks)[:300]), payload, None)
+        missing, extra, unexpected = [], [], []
+        got = {c.no: pushes_of(c, marks[c.no], ev1["id"]) for c in relay.conns}
+        for (cn, s), fl in registry.items():
+            if (cn, s) in touched:
+                continue
+            want = 1 if any(spec.matches(q, ev1, False) for q in validate(fl)) else 0
+            n = got[cn].get(s, 0)
+            if n < want:
+                missing.append((cn, s))
+            elif n > want:
+                (extra if want else unexpected).append((cn, s, n))
+        for cn, g in got.items():
+            for s, n in g.items():
+                if (cn, s) not in registry:          # opened in the burst (filters that do not match) or never opened at all
+                    unexpected.append((cn, s, n))
+        if missing or extra or unexpected:
+            report.property_failure(
+                "%s: %d subscriptions open, one event accepted while other connections' messages arrived: %d open matching subscriptions "
+                "that no message of the burst names never got it (%s%s), %d got it more than once %s, %d pushes to subscriptions that "
+                "do not match or do not exist %s"
+                % (backend, n_open, len(missing), ", ".join("%d/%s" % k for k in missing[:6]), ", ..." if len(missing) > 6 else "",
+                   len(extra), extra[:4], len(unexpected), unexpected[:4]), payload, None)
+        # the event was accepted: a stored query returns it
+        checker = connect("10.6.0.1")
+        settle_fully()
+        n = len(checker.out)
+        checker.send(["REQ", "again", {"ids": [ev1["id"]]}], settle=False)
+        settle_fully()
+        stored = [f for f in checker.frames(n) if isinstance(f, list) and f[0] == "EVENT" and f[2].get("id") == ev1["id"]]
+        if len(stored) != 1 and oks and oks[0][2] is True:
+            report.property_failure("%s: an event answered OK true is returned %d times by a stored query for its id" % (backend, len(stored)),
+                                    payload, None)
+        if len(stored) == 1 and oks and oks[0][2] is False:
+            report.property_failure("%s: an event answered OK false (%s) is stored and returned by a query: live and stored disagree"
+                                    % (backend, str(oks[0][3])[:120]), payload, None)
+        checker.send(["CLOSE", "again"], settle=False)
+        settle_fully()
+
+        # ---- the second event, after everything has settled: the registry is exactly the reference registry -------------
+        marks = {c.no: len(c.out) for c in relay.conns}
+        publisher.send(["EVENT", ev2], settle=False)
+        settle_fully()
+        ok2 = [f[2] for f in publisher.frames(marks[publisher.no]) if isinstance(f, list) and f and f[0] == "OK"]
+        ok2 = ok2[0] if len(ok2) == 1 else ok2
+        if ok2 is not True:
+            report.property_failure("%s: a valid new event published after the burst had settled was answered %r" % (backend, ok2), payload, None)
+        wrong = []
+        want2 = {c.no: Counter() for c in relay.conns}
+        for (cn, s), fl in final.items():
+            if any(spec.matches(q, ev2, False) for q in validate(fl)):
+                want2[cn][s] = 1
+        for c in relay.conns:
+            got2 = pushes_of(c, marks[c.no], ev2["id"])
+            if got2 != want2[c.no]:
+                wrong.append((c.no, sorted((got2 - want2[c.no]).items())[:4], sorted((want2[c.no] - got2).items())[:4]))
+        if wrong and ok2 is True:
+            report.property_failure("%s: after the burst had settled an accepted event did not reach exactly the open matching subscriptions: "
+                                    "(connection, unexpected, missing) = %r" % (backend, wrong[:5]), payload, None)
+        for c in relay.conns:
+            if not c.done:
+                c.inbox.put_nowait(proto.DISCONNECT)
+        settle_fully()
+        report.count("large_fanout_" + backend)
+        report.case(("burst", backend, tag, n_open, json.dumps(payload["burst"], sort_keys=True, default=str)[:4000]), nontrivial=clock["pushes"] > 0,
+                    sample={"case": "large-fanout-burst", "backend": backend, "open_subscriptions": n_open, "connections": len(subscribers) + len(lurkers),
+                            "burst_messages": len(mutations), "arrived_before_ok": in_flight})
+    finally:
+        clock["forced"] = True
+        proto._RecQueue.put = orig_put
+        try:
+            relay.loop.set_task_factory(None)
+        except Exception:
+            pass
+        relay.close()
+
+
 def run(report, tier, seed):
     rng = random.Random(seed)
     drv = common.Driver()
@@ -321,9 +643,15 @@ def run(report, tier, seed):
         "unsettled trace sessions: bursts of 1-6 messages on 2-4 connections are queued before the loop runs, the run is "
         "recorded as labels of the machine (wrappers applied from outside) and must be accepted by `proto.trace` with equal "
         "transcripts; "
+        "large fan-outs: 6-16 connections (thorough: up to 40) with 20-32 subscriptions each (32 = the per-connection limit), 150-500 "
+        "open subscriptions, one EVENT, and 30-60 messages of the other connections (first REQ of a new connection, CLOSE, REQ under "
+        "a new id, replacement, disconnect) whose arrival is swept over the scheduling points of the EVENT's processing (n-th loop "
+        "turn / n-th task started by the publisher's handler / n-th live item queued, n = 1, 2, 3, 4, 6, 9 ... up to the number of "
+        "open subscriptions); then a second event after everything has settled; "
         "non-trivial = something was pushed / matched")
     report.assumptions += ["settled sessions: quiescence after every message; trace sessions: whatever interleaving the event loop produces for a burst; all interleavings are covered by the theorems over `run`",
-                           "NIP-26 delegation tokens are produced with aionostr's own signer"]
+                           "NIP-26 delegation tokens are produced with aionostr's own signer",
+                           "large fan-outs: the other connections' messages arrive at loop turns chosen by the harness (its sockets release them); a subscription named by such a message is owed nothing for the event in flight"]
     try:
         live_match_corr(report, drv, rng, keys, 400 if tier == "quick" else 20000)
         for i in range(8 if tier == "quick" else 200):
@@ -337,6 +665,17 @@ def run(report, tier, seed):
         for i in range(5 if tier == "quick" else 120):
             for backend in ("sql", "kv"):
                 ptrace.run_trace_session(report, drv, backend, rng, keys, i)
+        # large fan-outs (last, so that the cases above stay what they were for a given seed).  Sizes on general grounds, not
+        # tuned to any implementation: the default per-connection limit is 32, so "many subscriptions" means many connections at
+        # or near it; a round that works in batches / chunks / time slices of up to a few hundred subscriptions still has several
+        # suspension points in a registry of this size, and the arrival sweep reaches every one of them.
+        big = tier != "quick"
+        for i in range(20 if big else 3):
+            n = rng.randint(8, 40 if big else 16)
+            large_fanout_burst(report, "kv", rng, keys, i, n, [rng.choice([32, 32, rng.randint(20, 31)]) for _ in range(n)])
+        for i in range(8 if big else 2):
+            n = rng.randint(6, 16 if big else 9)
+            large_fanout_burst(report, "sql", rng, keys, i, n, [rng.choice([32, 32, rng.randint(20, 31)]) for _ in range(n)])
     finally:
         drv.close()
 
